@@ -74,6 +74,13 @@ EqEvent(a, b) ==
        [] a.ev = "eval"      -> a.c = b.c /\ a.len = b.len
        [] a.ev = "collect"   -> a.c = b.c /\ (a.lim < 0 => ItemsEq(a.items, b.items)) /\ Len(a.items) = Len(b.items)
        [] a.ev = "obs"       -> ObsEq(a, b)
+       \* the argument battery: same outcome class, same number of objects, for every triple
+       [] a.ev = "args"      -> /\ Len(a.res) = Len(b.res)
+                                /\ \A i \in 1..Len(a.res) : /\ a.res[i][1] = b.res[i][1] /\ a.res[i][2] = b.res[i][2]
+                                                              /\ a.res[i][5] = b.res[i][5]
+                                                              \* which error wins for a doubly malformed triple is not promised
+                                                              /\ ((a.res[i][3] # "malformed") => (a.res[i][4] = b.res[i][4] /\ a.res[i][6] = b.res[i][6]))
+                                                              /\ ((a.res[i][3] = "malformed") => ((a.res[i][4] = "ok") = (b.res[i][4] = "ok")))
        [] a.ev = "hdr"       -> a.c = b.c
        [] a.ev \in {"panic", "hang"} -> FALSE
        [] OTHER              -> TRUE
